@@ -21,7 +21,7 @@ Ltac go_beq_nil :=
 
 (* a method that is straight-line code around conn.Raw *)
 Ltac go_cmd f :=
-  intros; go_unfold f; cbv zeta; rewrite ?go_Raw_eq; cbn [bind];
+  intros; go_unfold f; cbv zeta; rewrite ?go_Raw_eq; cbn [bind]; rewrite ?ge_len_pos;
   cbv beta delta [emit arg opt_trailing s_sp s_sp_colon]; cbn [nth skipn app]; go_beq_nil;
   first [reflexivity | congruence | repeat f_equal; go_listeq].
 
@@ -164,9 +164,12 @@ Section Cmd.
     go_unfold go_client_Conn_Cap. repeat go_let_any. go_subst_lets.
     unfold emit, arg. cbn [nth skipn].
     destruct caps as [|c0 caps].
-    - cbn [bind]. rewrite go_Raw_eq. cbn [bind]. repeat f_equal; go_listeq.
-    - match goal with |- (if ?c then _ else _) = _ => replace c with false by reflexivity end.
-      cbv zeta. rewrite go_splitArgs_eq. cbn [bind].
+    - match goal with |- (if ?c then _ else _) = _ =>
+        let v := eval cbv in c in change c with v end.
+      cbv iota. cbn [bind]. rewrite go_Raw_eq. cbn [bind]. repeat f_equal; go_listeq.
+    - match goal with |- (if ?c then _ else _) = _ =>
+        let v := eval cbv in c in change c with v end.
+      cbv iota zeta. rewrite go_splitArgs_eq. cbn [bind].
       replace (450 - len (([67; 65; 80; 32]%N ++ sub) ++ [32; 58]%N))
         with (default_split - len (s_CAP ++ s_sp ++ sub ++ s_sp_colon))
         by (unfold default_split; f_equal; f_equal; go_listeq).
